@@ -1,5 +1,7 @@
 /*UNIT
 {"props": ["C13"], "src": ["lib/log.c"], "mode": "plain", "kind": "bounded", "bound": "target slots 0..1 in use (conf_active_max < 2), all other slots unused; slot loops unwound 3 times", "unwind": 3, "defines": ["-DVERIF_SLOTS=2", "-DVERIF_VS_FRESH_BUFFER"],
+ "variants": [{"vname": "slots2", "unwind": 3, "defines": ["-DVERIF_SLOTS=2", "-DVERIF_VS_FRESH_BUFFER"]},
+              {"vname": "slots4_nomarker", "tier": "thorough", "unwind": 5, "bound": "target slots 0..3 in use (conf_active_max < 4); message without extended-information marker; slot loops unwound 5 times", "defines": ["-DVERIF_SLOTS=4", "-DVERIF_VS_FRESH_BUFFER", "-DVERIF_NO_MARKER"]}],
  "functions": ["qb_log_real_va_", "cs_format (inlined)"],
  "restrict_fp": ["qb_log_real_va_.function_pointer_call.1/verif_old_fn", "qb_log_real_va_.function_pointer_call.2/verif_old_fn",
                  "qb_log_real_va_.function_pointer_call.3/verif_vlogger",
